@@ -28,4 +28,11 @@ def pyMinQ (a b : Rat) : Rat := if a ≤ b then a else b
 def pyAbsI (a : Int) : Int := if a < 0 then -a else a
 def pyAbsQ (a : Rat) : Rat := if a < 0 then -a else a
 
+/-- one element of `np.allclose(a, b)` with numpy's default tolerances: `|a - b| <= atol + rtol * |b|`, `atol = 1e-8`,
+`rtol = 1e-5` (as decimals; numpy evaluates the right-hand side in floating point, which is not modelled) -/
+def npClose (a b : Rat) : Bool := decide (pyAbsQ (a - b) ≤ 1 / 100000000 + 1 / 100000 * pyAbsQ b)
+def npAllclose2 (a b : Rat × Rat) : Bool := npClose a.1 b.1 && npClose a.2 b.2
+def npAllclose4 (a b : Rat × Rat × Rat × Rat) : Bool :=
+  npClose a.1 b.1 && npClose a.2.1 b.2.1 && npClose a.2.2.1 b.2.2.1 && npClose a.2.2.2 b.2.2.2
+
 end PyresampleModel.Gen
